@@ -22,7 +22,11 @@ def run(ctx):
                       "representative names with the program's regex engine")
     ctx.rule("R17-5", "the alias value replaces the word it was looked up for: expand_alias's position counter advances exactly "
                       "once per token and recorded positions are applied to the vector as scanned (E-EDITLIST)")
+    ctx.rule("R17-6", "`alias n=v2` after `alias n=v1` replaces the value: Shell::add_alias stores with an unconditional "
+                      "HashMap::insert")
     for crate in ctx.crates:
+        from .c15 import overwrite_rule
+        overwrite_rule(ctx, crate, "R17-6", "shell::Shell::add_alias", "aliases")
         from .. import editlist
         n_ = editlist.rule(ctx, crate, "R17-5", ["shell::expand_alias"])
         ctx.floor("R17-5", crate, "alias pass with a token vector", n_, 1)
